@@ -20,6 +20,7 @@ import json
 import multiprocessing
 import os
 import random
+import re
 import sys
 import time
 import traceback
@@ -240,7 +241,7 @@ def phase_a(mod, tier, result):
         still = set()
         for m in built:
             path = os.path.join(leanio.LEAN_DIR, '.lake', 'build', 'lib', 'lean', *m.split('.')) + '.olean'
-            if os.path.exists(path) and ('error' not in log or m not in log):
+            if os.path.exists(path) and ('error' not in log or not re.search(re.escape(m) + r'(?![A-Za-z0-9_])', log)):
                 still.add(m)
         for m in set(mod.LEAN_MODULES) - still:
             problems.append('proof module %s does not build' % m)
